@@ -8,7 +8,7 @@ import re
 from . import refmodel as R
 from .monitors import M
 
-TOKEN = re.compile(r'(?<![\w.])([+-]?(?:\d+(?:\.\d*)?|\.\d+)(?:[eE][+-]?\d+)?)\s+(da|n|u|µ|m|c|d|k|M)?(mol|g|L|U)(?![A-Za-z])')
+TOKEN = re.compile(r'(?<![\w.])([+-]?(?:\d+(?:\.\d*)?|\.\d+)(?:[eE][+-]?\d+)?)\s+(da|p|n|u|µ|m|c|d|k|M)?(mol|g|L|U)(?![A-Za-z])')
 
 
 def tokens(text):
